@@ -975,6 +975,32 @@ struct Stats {
     observations: u64,
 }
 
+/// cumulative statistics of this worker, one line after every trace (the parent adds up the last line of every
+/// chunk, so the numbers of a chunk that ends in an abort are not lost)
+fn cum_line(section: &str, st: &Stats) -> String {
+    let kv: Vec<(&str, u64)> = match section {
+        "G" => vec![
+            ("G.traces", st.g_traces), ("G.ops", st.g_ops), ("G.inserted_plain_getters_each_twice", st.inserted[0]),
+            ("G.inserted_complete_enumerations", st.inserted[1]), ("G.inserted_abandoned_enumerations", st.inserted[2]),
+            ("G.inserted_raw_slot_reads", st.inserted[3]), ("G.observations", st.observations),
+        ],
+        "R" => vec![
+            ("R.traces", st.r_traces), ("R.continuation_ops", st.r_ops), ("R.reset_while_selecting", st.r_in_selecting),
+            ("R.reset_with_pending_syllable", st.r_in_syllable), ("R.raw_slot_reads_after_reset", st.r_raw_after_reset),
+            ("R.reset_after_shift_left_highlight", st.r_highlighting), ("R.observations", st.observations),
+        ],
+        _ => vec![
+            ("P.traces", st.p_traces), ("P.ops", st.p_ops), ("P.ops_of_other_contexts", st.p_other_ops),
+            ("P.traces_with_second_thread", st.p_threaded), ("P.observations", st.observations),
+        ],
+    };
+    let mut o = String::from("@cum");
+    for (k, v) in kv {
+        let _ = write!(o, " {}={}", k, v);
+    }
+    o
+}
+
 fn worker(section: &str, from: u64, to: u64) {
     let mut w = W { out: Out::new() };
     let seed = seed_from_env();
@@ -994,34 +1020,7 @@ fn worker(section: &str, from: u64, to: u64) {
             _ => trace_contexts(&mut w, s ^ 0x8000, n_ops, t % 3 == 0, &mut st),
         }
         w.out.flush();
-    }
-    let o = &mut w.out;
-    match section {
-        "G" => {
-            o.stat("G.traces", st.g_traces);
-            o.stat("G.ops", st.g_ops);
-            o.stat("G.inserted_plain_getters_each_twice", st.inserted[0]);
-            o.stat("G.inserted_complete_enumerations", st.inserted[1]);
-            o.stat("G.inserted_abandoned_enumerations", st.inserted[2]);
-            o.stat("G.inserted_raw_slot_reads", st.inserted[3]);
-            o.stat("G.observations", st.observations);
-        }
-        "R" => {
-            o.stat("R.traces", st.r_traces);
-            o.stat("R.continuation_ops", st.r_ops);
-            o.stat("R.reset_while_selecting", st.r_in_selecting);
-            o.stat("R.reset_with_pending_syllable", st.r_in_syllable);
-            o.stat("R.raw_slot_reads_after_reset", st.r_raw_after_reset);
-            o.stat("R.reset_after_shift_left_highlight", st.r_highlighting);
-            o.stat("R.observations", st.observations);
-        }
-        _ => {
-            o.stat("P.traces", st.p_traces);
-            o.stat("P.ops", st.p_ops);
-            o.stat("P.ops_of_other_contexts", st.p_other_ops);
-            o.stat("P.traces_with_second_thread", st.p_threaded);
-            o.stat("P.observations", st.observations);
-        }
+        println!("{}", cum_line(section, &st));
     }
     w.out.flush();
 }
@@ -1050,10 +1049,13 @@ fn main() {
                 .expect("spawn worker");
             let rd = BufReader::new(child.stdout.take().unwrap());
             let mut current = from;
+            let mut cum = String::new();
             for line in rd.split(b'\n') {
                 let line = String::from_utf8_lossy(&line.unwrap()).to_string();
                 if let Some(t) = line.strip_prefix("@trace ") {
                     current = t.trim().parse().unwrap_or(current);
+                } else if let Some(c) = line.strip_prefix("@cum ") {
+                    cum = c.to_string();
                 } else if let Some(s) = line.strip_prefix("#stat ") {
                     // statistics of the chunks of one section are added up
                     let mut it = s.splitn(2, ' ');
@@ -1064,13 +1066,19 @@ fn main() {
                 }
             }
             let status = child.wait().unwrap();
+            for kv in cum.split(' ') {
+                if let Some((k, v)) = kv.split_once('=') {
+                    *stats.entry(k.to_string()).or_insert(0) += v.parse::<u64>().unwrap_or(0);
+                }
+            }
             if status.success() {
                 break;
             }
             // the worker died inside the C API (abort) — crashes are C01's subject; the trace is skipped and counted
             aborts += 1;
             from = current + 1;
-            if aborts > 40 {
+            if aborts > 40 + total / 10 {
+                writeln!(out, "#stat {}.abandoned_after_too_many_aborts 1", section).unwrap();
                 break;
             }
         }
